@@ -44,8 +44,10 @@ MANIFEST = {
                 "allocation and with the argument pointing into the array itself (gen_reserve, gen_remove_index, gen_remove_iter, gen_clear, "
                 "gen_append_value(_alias), gen_append_ptr(_alias), gen_resize(_alias), gen_resize_shrink: both fault or both succeed in representing "
                 "states, no foreign allocation touched, fuel size+n suffices); QuickSort::swap / the do-while partition loop / QuickSort::sort of "
-                "List::sort for every heap, element type and comparison (gen_sort_swap, gen_sort_partition, gen_sort, gen_sort_comparator: the "
-                "translated sort terminates, follows no null pointer, writes no link and leaves sortVals lt of the values); "
+                "List::sort for every heap, element type and comparison and every range left != right (gen_sort_swap, gen_sort: what the model's qsortG "
+                "returns within fuel f the translated sort returns within fuel f+1, proved for the do-while spelling and for a partition helper with a "
+                "for loop and the right recursion as a loop; gen_sort_comparator: the translated sort terminates, follows no null pointer, writes no "
+                "link and leaves sortVals lt of the values); "
                 "Array::append(const Array&) with another array and with the array itself as argument (gen_append_array, gen_append_array_self); "
                 "List::insert(position, list) with the list itself and List::clear for every heap (gen_list_insert_self, gen_list_clear, "
                 "gen_self_insert_every_position; the insert(pos, value) calls inside the loop are the model step Ptr.insert).  The guard and capacity "
